@@ -12,6 +12,7 @@ modflag=""
 if [ "$REPO" != "/repo" ]; then
   tag=".$(echo -n "$REPO" | md5sum | cut -c1-8)"
   mf="$PWD/.cache/gomod$tag/go.mod"
+  [ -f harness/go.mod ] || VERIF_REPO=/repo ./gen_gomod.sh   # -modfile still needs a go.mod at the module root
   ./gen_gomod.sh "$mf"
   modflag="-modfile=$mf"
 else
